@@ -122,8 +122,23 @@ def one(ctx, *args):
     for r in replies:
         if not isinstance(r, dict) or "version" not in r:
             return False
-    # offending part: a set entry that did not change its own target must not have changed anything else
+    # unreadable / unwritable files: reported in `error`, configuration and files as if the key had not been sent
     last = reqs[-1]
+    if isinstance(last, dict) and ("load" in last or "save" in last) and isinstance(last.get("version"), int) and not isinstance(last.get("version"), bool) and 1 <= last["version"] <= 3:
+        fs_used = SV.S.open.__self__ if hasattr(SV.S.open, "__self__") else None
+        bad_load = "load" in last and last["load"] is not None and not (isinstance(last["load"], str) and fs_used is not None and fs_used.isfile(last["load"]))
+        sv = last.get("save")
+        bad_save = "save" in last and sv is not None and not (isinstance(sv, str) and fs_used is not None and sv != "" and fs_used.ismem(sv) and fs_used.isdir(fs_used.ab(sv).rsplit("/", 1)[0]) and fs_used.ab(sv) not in fs_used.unwritable and not fs_used.isdir(sv))
+        if bad_load or bad_save:
+            if not replies[-1].get("error"):
+                return False
+            if fs_used is not None and fs_used.read("/m/sdkconfig") != text:
+                return False  # a failed save / load must not rewrite the session's file
+            rest_req = {k_: v_ for k_, v_ in last.items() if not (k_ == "load" and bad_load) and not (k_ == "save" and bad_save)}
+            _, ok0, k0 = SV.run(tid, _fs(text), "/m/sdkconfig", reqs[:-1] + [rest_req], version=ctx.get("version", 3))
+            if not ok0 or _state(kc) != _state(k0):
+                return False
+    # offending part: a set entry that did not change its own target must not have changed anything else
     if isinstance(last, dict) and isinstance(last.get("set"), dict) and len(last["set"]) == 2 and "reset" not in last:
         (a, av), (bname, bv) = list(last["set"].items())
         reqs0 = reqs[:-1] + [{k_: v_ for k_, v_ in last.items() if k_ != "set"}]
